@@ -26,6 +26,31 @@ CLAIMS = {
   note="Trusted: Coq kernel; Spec.v (tied by differential runs); an empty receiver account left by a failed delivery is identified with an absent one (documented caveat: with gas price 0 a later transaction from that address could tell). EVM failures revert in go-ethereum (trusted). No axioms.",
   technique="Rocq proof (validation-before-execution, validated execution cannot fail) + Spec-vs-RigoApp correspondence + fork-and-delete differential on the implementation",
   ref="DESIGN.md section 7 C05"),
+ "C01": dict(
+  text="The model (Spec.v, Ledger.v) is a function of genesis and block history; what could make replicas differ is node-local choice the model abstracts. C01_commit_order_irrelevant: the tree operations of every ledger commit (hence the new tree) are independent of the order in which Go iterates the map of updated items; C01_selection_unique: any correct sort — Go's unstable sort.Sort included — of delegatees by (power, stake count, address) returns the model's listing, because the order is strict and total. Every run executes each generated history on TWO real nodes and requires identical per-transaction answers, validator updates, application hashes, hook-recorded tree-operation sequences and durable-write order, and that every commit's tree operations are 'removals, then sets in strictly descending key order'; the model is compared with both.",
+  note="Trusted: Coq kernel; IAVL root hash = function of the ordered tree-operation sequence (checked by requiring identical sequences and hashes on two replicas); Go's sort.Sort correct; go-ethereum trie deterministic. The wall clock is used only in Info for a fresh node and by CheckTx. No axioms.",
+  technique="Rocq proofs of oracle-independence (commit order, sort uniqueness) + two-replica differential incl. hook-recorded tree operations",
+  ref="DESIGN.md section 7 C01"),
+ "C06": dict(
+  text="C06_holds (Props/C06.v): for EVERY schedule interleaving arbitrary CheckTx and Query calls with the consensus calls at ABCI-call granularity, every answer to a consensus call (BeginBlock/DeliverTx/EndBlock results, ledgers written by Commit) and the consensus-side state are those of the consensus calls alone (Node.v: consensus state paired with the mempool-side state that CheckTx alone can change). That the code has this structure is what the quiet-vs-noisy differential checks on every run: each history is executed again on a second real node with CheckTx (transactions of this and later blocks, bit-flipped copies) and Query calls injected at every call boundary. The shared stake limiter that broke this was repaired by fix cef0175.",
+  note="Trusted: Coq kernel; Node.v's split of the state (tied by the differential; before the fix it fails with 'StakeLimiter's power object is not equal'); calls are serialised by the application mutex. No axioms.",
+  technique="Rocq non-interference proof over all interleavings + quiet-vs-noisy replica differential",
+  ref="DESIGN.md section 7 C06"),
+ "C08": dict(
+  text="The full statement is FALSE of the code and is recorded as ten known findings (KNOWN_FINDINGS.txt, keys crash-after:<store>): C08_refuted proves on the version-vector model Crash.v that for every block every crash point strictly between the first ledger save and the block-context record leaves stores from which the replay of the interrupted block panics. C08_partial_before / C08_partial_after: a crash anywhere before Commit's first durable write, or after the block context is written, recovers (Info reports the last committed resp. the interrupted block). Every run snapshots a real node's data directory mid-block, before Commit and after EVERY durable write (verif hook), starts a real node on each snapshot, replays and continues, and compares the outcome (recovers / which panic) with the model's prediction; a non-recovering point outside the ten listed ones is a violation.",
+  note="Trusted: Coq kernel; Crash.v abstracts stores to version numbers (tied by the experiment); 'process death' only (no power loss: IAVL writes are not synced); recovery as Tendermint's handshake is played by the harness. Not repaired: needs an atomic multi-store commit or roll-back on open.",
+  technique="Rocq proof on a store-version model (partial + refutation) + fault enumeration of every durable-write crash point on the real node",
+  ref="DESIGN.md section 7 C08"),
+ "C15": dict(
+  text="C15_holds (Props/C15.v): over EVERY run from a genesis, whenever a commit changes the active parameters the new set is merge(old, document of the major option) of a governance proposal whose major option held the most votes and at least floor(2*total/3), its votes being the summed powers of recorded voters currently choosing it, and the stored parameters equal the new active ones; C15_only_at_commit / C15_not_before_applying_height (no other moment, not before the applying height, from the committed frozen tree); C15_submission / C15_submitter_is_validator (only a current validator; voter table = validator set of that moment); C15_voting (recorded voter, valid option, inside the window; replaces the earlier choice); C15_tallies (tally and 2/3 invariants of all open/frozen proposals over all runs); C15_merge (all 19 fields); C15_active_equals_stored. Tie: Spec.v run on the real node's histories (proposal and parameter queries, gov transaction results) + trace predicate P_C15.",
+  note="Trusted: Coq kernel; Spec.v (tied by differential runs); JSON option documents reach the model parsed. Voter weights shrink under slashing (C14). No axioms.",
+  technique="Rocq invariants over all runs (tally, majority, parameter provenance) + Spec-vs-RigoApp correspondence and trace predicate",
+  ref="DESIGN.md section 7 C15"),
+ "C19": dict(
+  text="C19_holds (Props/C19.v): the answer for an already committed height never changes, whatever follows — later blocks, a block in progress, mempool checks, other queries — because committed versions are only appended (C18 history immutability at ledger level); C19_pure: serving a query changes nothing; C19_beyond_latest: heights above the latest are refused. 'The answer for height h is the state committed by block h' is part of the Spec-vs-RigoApp correspondence: the compared projections ARE historical queries asked at the end of the run. Every run also re-executes each history on a real node that is asked all paths for sampled (key, height) pairs between blocks, mid-block, after later blocks and after a restart: the first answer is remembered and every later one must equal it (as JSON values), height 0 must mean the latest committed height.",
+  note="Trusted: Coq kernel; Node.v/Spec.v (tied by differential runs); answers compared as JSON values (tmjson writes map members in iteration order). stakes/voting_power and vm_call are outside the property's list. No axioms.",
+  technique="Rocq proof (committed versions append-only => query answers immutable) + repeated-query stability run on the real node",
+  ref="DESIGN.md section 7 C19"),
  "C03": dict(
   text="Props/C03.v: RLP encoding is injective (prefix-free) on items below 2^64 bytes; the field->RLP map of a transaction is injective on decoded transactions of all eight types (bit-cast integer fields included); the signing preimage determines chain id and all signed fields for every chain id not containing ') Signed Message:\\n' (C03_chainid_hypothesis_needed exhibits the collision otherwise); C03_holds: with idealised signature recovery and hashing stated as hypotheses, a signature made for (chain0, tx0) by key k verifies for (chain, tx) only if nothing was altered and tx.From is k's address. The model's preimage is compared byte for byte with the real PreImageToSignTrxRLP on generated vectors, and every single-field alteration of honestly signed transactions is passed to the real VerifyTrxRLP. The no-effect half of the statement is C05; delivery of tampered transactions is exercised by the application-level checks.",
   note="Trusted: Coq kernel; Rlp.v/Preimage.v as a model of go-ethereum rlp + trx.go encoders (tied byte for byte on generated vectors); ECDSA/SHA-256 idealised as explicit hypotheses; chain-id hypothesis; payload kind determined by Type (true of both wire decoders). No axioms.",
